@@ -16,6 +16,7 @@ structure LInstCfg where
   faults : List String
   pre : List Nat
   post : List Nat
+  slow : Nat := 0     -- a listener of this instance takes this long over every `allocated` event (holds the loop up)
 deriving Repr
 
 structure LScn where
@@ -31,6 +32,11 @@ def parseLScn (inp : KV) : LScn :=
       let nums (s : String) : List Nat := if s == "-" then [] else (s.splitOn "+").filterMap String.toNat?
       ({ shared := (sh.toNat?).getD 0, reserved := (rs.toNat?).getD 0, factor := (f.toNat?).getD 0, maxInterval := (mi.toNat?).getD 0,
          provErr := pe == "1", faults := if flt == "-" then [] else flt.splitOn "+", pre := nums pre, post := nums post } : LInstCfg)
+    | [sh, rs, f, mi, pre, post, flt, _, pe, slow] =>
+      let nums (s : String) : List Nat := if s == "-" then [] else (s.splitOn "+").filterMap String.toNat?
+      ({ shared := (sh.toNat?).getD 0, reserved := (rs.toNat?).getD 0, factor := (f.toNat?).getD 0, maxInterval := (mi.toNat?).getD 0,
+         provErr := pe == "1", faults := if flt == "-" then [] else flt.splitOn "+", pre := nums pre, post := nums post,
+         slow := (slow.toNat?).getD 0 } : LInstCfg)
     | _ => { shared := 0, reserved := 0, factor := 0, maxInterval := 0, provErr := false, faults := [], pre := [], post := [] }
   { gen := inp.nat "gen", lease := inp.nat "lease", insts := insts.toArray, endT := inp.nat "end" }
 
@@ -55,6 +61,7 @@ structure LInstSt where
   procAt : List (Nat × Nat) := []          -- partition ↦ time the store processed (granted) that call
   lastFault : Nat := 0                     -- time of the last refused / errored / slow call
   provisioning : Bool := false
+  inListener : Bool := false               -- the loop is held up inside a slow listener (before it recomputes the capacity)
   creates : Nat := 0                       -- number of (re-)provisionings so far
   needySince : Option Nat := none          -- holds fewer than min(target, parts) partitions continuously since then
   procs : Nat := 0                         -- lease calls processed by the store so far
@@ -88,7 +95,7 @@ def monitorLease (sc : LScn) (entries : List String) : List (String × String) :
     let kind := f.getD 1 ""
     let n2 := ((f.getD 2 "").toNat?).getD 0
     let n3 := ((f.getD 3 "").toNat?).getD 0
-    let cfg (i : Nat) : LInstCfg := sc.insts[i]?.getD ⟨0, 0, 0, 0, false, [], [], []⟩
+    let cfg (i : Nat) : LInstCfg := sc.insts[i]?.getD ⟨0, 0, 0, 0, false, [], [], [], 0⟩
     let ist (i : Nat) : LInstSt := m.insts[i]?.getD {}
     if m.suspect.any (fun x => x.1 < t) then
       m := m.add "C07" "lease-request-without-demand"
@@ -138,6 +145,8 @@ def monitorLease (sc : LScn) (entries : List String) : List (String × String) :
         ({ s with parts := n3, held := h, provisioning := true, creates := s.creates + 1, satisfied := s.satisfied || decide (h.length ≥ min s.target n3) } : LInstSt).reneedy t
     else if kind == "created" then
       m := m.upd n2 fun s => { s with provisioning := false }
+    else if kind == "lsleep" then m := m.upd n2 fun s => { s with inListener := true }
+    else if kind == "lwake" then m := m.upd n2 fun s => { s with inListener := false }
     else if kind == "issue" then
       let i := n2
       let p := n3
@@ -203,7 +212,7 @@ def monitorLease (sc : LScn) (entries : List String) : List (String × String) :
           if capS != "x" then
             let cap := (capS.toNat?).getD 0
             let mx := (maxS.toNat?).getD 0
-            let busy := s.callOpen.isSome || s.provisioning
+            let busy := s.callOpen.isSome || s.provisioning || s.inListener
             -- C06: Capacity() = reserved + factor × held (v1 publishes asynchronously, still settled here)
             if s.started && !busy && cap != s.reserved + fac * s.held.length then
               m := m.add "C06" (if s.shutdownAt.isSome then "capacity-formula:after-shutdown" else "capacity-formula")
@@ -214,7 +223,7 @@ def monitorLease (sc : LScn) (entries : List String) : List (String × String) :
             -- C07: demand at or below the reserve for more than a lease duration (plus call latencies): nothing but the reserve is left
             match s.lastGiveMe with
             | some (tg, _) =>
-              let lat := (c.pre ++ c.post).foldl max 0
+              let lat := (c.pre ++ c.post).foldl max 0 + c.slow
               if s.started && !busy && s.target == 0 && tg + sc.lease + 2 * lat + 1000000000 ≤ t && cap > s.reserved then
                 m := m.add "C07" "capacity-not-decayed-to-reserve"
             | none => pure ()
@@ -243,6 +252,12 @@ def monitorLease (sc : LScn) (entries : List String) : List (String × String) :
                     else if slowRet then "counted-outside-lease:latency-after-grant"
                     else "counted-outside-lease"
                   m := m.add "C04" rule
+                  -- C06: "counted ... until shortly before it expires": still counted although its own lease has run out
+                  let ownExpired : Bool := match m.store.find? (·.1 == p) with
+                    | some (_, o, u) => o == i && decide (u ≤ t)
+                    | none => false
+                  if ownExpired && s.shutdownAt.isNone && !(s.stopAsked && sc.gen == 2) then
+                    m := m.add "C06" "partition-counted-after-its-lease-ended"
                   -- C09: a slow lease call is a fault; it must not leave a partition in the capacity figure that no lease backs
                   if slowRet && s.shutdownAt.isNone && !(s.stopAsked && sc.gen == 2) then
                     m := m.add "C09" "capacity-figure-corrupted-by-slow-lease-call"
@@ -257,7 +272,7 @@ def monitorLease (sc : LScn) (entries : List String) : List (String × String) :
         let c := cfg i
         let fac := effFactor c.factor
         let mi := (if c.maxInterval == 0 then 500 else c.maxInterval) * 1000000
-        let lat := (c.pre ++ c.post).foldl max 0
+        let lat := (c.pre ++ c.post).foldl max 0 + c.slow
         let window := sc.lease + (s.parts + 1) * (mi + 2 * lat) + 1000000000
         let others := (m.insts.toList.zipIdx.filter fun (o, j) => j != i && o.started && o.shutdownAt.isNone && !o.crashed && o.target > 0)
         -- C09 (contended): a partition that has been free for a long window, next to an instance that needed more
